@@ -5,7 +5,10 @@
 //   retired nodes have been handed to the reclamation callback and exactly the
 //   protected ones are still retired. Nodes are arena blocks at ascending
 //   addresses, so first/last/duplicate positions of the sorted scratch array
-//   and of the binary search are all exercised.
+//   and of the binary search are all exercised. Pointer values are inputs too
+//   (the scan sorts and searches them as integers): besides the arena layout the
+//   nodes are placed at distances around 2^31 and 2^32 inside a reserved 9 GB
+//   range (layouts 1..5), where a comparison narrowed to 32 bits goes wrong.
 // mode 1 (bounded garbage): N records x K slots, an optional record joining
 //   mid-run, every protection pattern over the first 6 of a stream of retired
 //   nodes: retired_count < retire_threshold after every hazard_pointer_free,
@@ -15,6 +18,7 @@
 #include "fmc.h"
 #include <stdlib.h>
 #include <string.h>
+#include <sys/mman.h>
 
 typedef struct node {
   hazard_node_t hazard;
@@ -35,6 +39,35 @@ static node_t* mk(int id) {
   return n;
 }
 
+// layouts of the four nodes inside the reserved range (byte offsets); layout 0 = ordinary heap blocks
+#define GB (1ull << 30)
+static const uint64_t layouts[6][4] = {
+    {0, 0, 0, 0},
+    {0, 2 * GB + 64, 4 * GB + 128, 6 * GB + 192},
+    {0, 64, 2 * GB, 2 * GB + 64},
+    {0, 2 * GB - 64, 4 * GB - 64, 4 * GB + 64},
+    {64, 3 * GB, 4 * GB + 64, 8 * GB - 64},
+    {0, 4 * GB, 4 * GB + 64, 8 * GB},
+};
+static char* far_base;
+static node_t* mk_at(int layout, int id) {
+  if (!layout) return mk(id);
+  if (!far_base) {
+    far_base = mmap(0, 9 * GB, PROT_NONE, MAP_PRIVATE | MAP_ANONYMOUS | MAP_NORESERVE, -1, 0);
+    if (far_base == MAP_FAILED) fmc_fail("hpseq harness: cannot reserve address space");
+    for (int l = 1; l < 6; l++)
+      for (int i = 0; i < 4; i++) {
+        uintptr_t a = (uintptr_t)far_base + layouts[l][i];
+        if (mprotect((void*)(a & ~4095ul), 8192, PROT_READ | PROT_WRITE)) fmc_fail("hpseq harness: mprotect failed");
+      }
+  }
+  node_t* n = (node_t*)(far_base + layouts[layout][id]);
+  memset(n, 0, sizeof *n);
+  n->hazard.gc_function = gc;
+  n->id = id;
+  return n;
+}
+
 static void scan_mode(void) {
   static const int perms[24][4] = {{0,1,2,3},{0,1,3,2},{0,2,1,3},{0,2,3,1},{0,3,1,2},{0,3,2,1},{1,0,2,3},{1,0,3,2},{1,2,0,3},{1,2,3,0},{1,3,0,2},{1,3,2,0},
                                    {2,0,1,3},{2,0,3,1},{2,1,0,3},{2,1,3,0},{2,3,0,1},{2,3,1,0},{3,0,1,2},{3,0,2,1},{3,1,0,2},{3,1,2,0},{3,2,0,1},{3,2,1,0}};
@@ -45,12 +78,13 @@ static void scan_mode(void) {
     int combos = 1;
     for (int i = 0; i < slots; i++) combos *= 5;
     for (int c = 0; c < combos; c++) {
-      for (int pi = 0; pi < 24; pi++) {
+      for (int pl = 0; pl < 24 * 6; pl++) {
+        int pi = pl % 24, layout = pl / 24;
         _Atomic(hazard_pointer_thread_record_t*) head = 0;
         hazard_pointer_thread_record_t* rec[3];
         for (int r = 0; r < R; r++) rec[r] = hazard_pointer_thread_record_create_and_push(&head, K);
         node_t* nd[4];
-        for (int i = 0; i < 4; i++) nd[i] = mk(i);
+        for (int i = 0; i < 4; i++) nd[i] = mk_at(layout, i);
         int prot[4] = {0, 0, 0, 0};
         int cc = c;
         for (int s = 0; s < slots; s++) {
@@ -65,7 +99,7 @@ static void scan_mode(void) {
         hazard_pointer_scan(rec[0]);
         int kept = 0;
         for (int i = 0; i < 4; i++) {
-          if (prot[i] && nd[i]->reclaimed) fmc_fail("hazard pointers: protected node %d reclaimed (records=%d slots-code=%d retire-order=%d)", i, R, c, pi);
+          if (prot[i] && nd[i]->reclaimed) fmc_fail("hazard pointers: protected node %d reclaimed (records=%d slots-code=%d retire-order=%d address-layout=%d)", i, R, c, pi, layout);
           if (!prot[i] && !nd[i]->reclaimed) fmc_fail("hazard pointers: unprotected retired node %d survived a scan (records=%d slots-code=%d retire-order=%d)", i, R, c, pi);
           kept += prot[i];
         }
@@ -75,7 +109,8 @@ static void scan_mode(void) {
         hazard_pointer_scan(rec[0]);
         for (int i = 0; i < 4; i++)
           if (!nd[i]->reclaimed) fmc_fail("hazard pointers: node %d not reclaimed after its protection ended", i);
-        for (int i = 0; i < 4; i++) free(nd[i]);
+        if (!layout)
+          for (int i = 0; i < 4; i++) free(nd[i]);
         for (int r = 0; r < R; r++) { free(rec[r]->plist); free(rec[r]); }
         cases++;
       }
